@@ -320,7 +320,7 @@ func (p *TermPool) Or(a ...*Term) *Term {
 	}
 	return p.App("or", SortBool, a...)
 }
-func (p *TermPool) Eq(a, b *Term) *Term  { return p.App("=", SortBool, a, b) }
+func (p *TermPool) Eq(a, b *Term) *Term     { return p.App("=", SortBool, a, b) }
 func (p *TermPool) Ite(c, a, b *Term) *Term { return p.App("ite", a.S, c, a, b) }
 
 // Extend/extract helpers.
